@@ -165,6 +165,22 @@ def alias_closure(b, roots):
                     for y in leaves(e2):
                         if y[0] in ("arg", "local") and y not in out:
                             nxt.add(y)
+                elif rv["k"] == "use" and op_place(rv["o"][0]) is not None and all(isinstance(q, dict) and ("f" in q or "dc" in q) for q in op_place(rv["o"][0])["p"]):
+                    # `let (row, column) = pair;` / `Some((row, column)) = helper()`: a field of an aggregate that was built from plain values
+                    pl = op_place(rv["o"][0])
+                    e2 = b.expr_at({"copy": {"l": pl["l"], "p": []}}, d[1], d[2], 8, True)
+                    okp = True
+                    for q in pl["p"]:
+                        if "dc" in q:
+                            continue
+                        if isinstance(e2, tuple) and e2[0] == "agg" and q["f"] < len(e2[3]):
+                            e2 = e2[3][q["f"]]
+                        else:
+                            okp = False
+                            break
+                    if okp and isinstance(e2, tuple) and e2[0] in ("arg", "local"):
+                        if e2 not in out:
+                            nxt.add(e2)
         out |= nxt
         frontier = nxt
         if not frontier:
@@ -338,6 +354,17 @@ def visit_once(facts):
                 c = call_atom(e, ("core::iter::Iterator::all",))
                 if c is not None and truth is True:
                     ok = True
+                # the dual form: !preds.any(|b| !ordered.is_visited(&b))
+                c2 = call_atom(e, ("core::iter::Iterator::any",))
+                if c2 is not None and truth is False and len(c2[2]) >= 2:
+                    clo = strip_casts(c2[2][1])
+                    cb = facts.body(clo[1]) if isinstance(clo, tuple) and clo[0] == "agg" and len(clo) > 1 else None
+                    if cb is not None:
+                        for _, _, st2 in cb.stmts():
+                            if st2["lhs"]["l"] == 0 and not st2["lhs"]["p"] and st2["rv"]["k"] == "un" and st2["rv"]["op"] == "Not":
+                                ex = cb.expr(st2["rv"]["o"][0], 8)
+                                if any(isinstance(s_, tuple) and s_[0] == "call" and norm_path(s_[1]["path"]).endswith("VisitMap::is_visited") for s_ in walk_expr(ex)):
+                                    ok = True
             o.check(b, "push#%d" % m, t["line"], ok, "successor pushed only under all(predecessors ordered)==true",
                     "Topo::next pushes a successor that is not dominated by the all-predecessors-ordered test")
         o.check(b, "emits", b.line, n >= 1 and m >= 1, "%d emission, %d push site(s)" % (n, m), "emission/push sites not found")
@@ -622,6 +649,33 @@ def unchecked(facts):
                 ok = any(e[1] == "Lt" and has_call(e[2], ("index",)) and ("arg", 2) in roots_named(b, e[2]) and _is_len_of(e[3]) for (e, _, _) in at)
                 o.check(b, "%s#%d" % (callees[0], n), t["line"], ok, "dominated by x.index() < self.len() (early return / assert on its negation)",
                         "unchecked parent-array access in %s is not dominated by `x.index() < self.len()`" % last_seg(sfx))
+            # the same guard written as `(x.index() < self.len()).then(|| unsafe { .. })`: the closure runs only when the receiver is true
+            for cb in facts.with_closures(b):
+                if cb is b:
+                    continue
+                ucalls = [(i, t) for i, t in calls_named(cb, callees) if t["f"].get("unsafe")]
+                if not ucalls:
+                    continue
+                known_fns.add(cb.npath)
+                guarded = False
+                for pi, pt in b.calls():
+                    if last_seg(pt["f"]["path"]) != "then" or "bool" not in norm_path(pt["f"]["path"]) or len(pt["args"]) < 2:
+                        continue
+                    clo = strip_casts(b.expr(pt["args"][1], 6))
+                    if not (isinstance(clo, tuple) and clo[0] == "agg" and len(clo) > 1 and clo[1] == cb.path):
+                        continue
+                    ce = strip_casts(b.expr(pt["args"][0], 10))
+                    if isinstance(ce, tuple) and ce[0] == "bin" and ce[1] in ("Lt", "Gt"):
+                        lo, hi = (ce[2], ce[3]) if ce[1] == "Lt" else (ce[3], ce[2])
+                        caps = set()
+                        for c_ in clo[3]:
+                            caps |= {x for x in leaves(c_) if x[0] == "arg"}
+                        if has_call(lo, ("index",)) and ("arg", 2) in roots_named(b, lo) and _is_len_of(hi) and ("arg", 2) in roots_named(b, clo):
+                            guarded = True
+                for (i, t) in ucalls:
+                    n += 1
+                    o.check(cb, "%s#%d" % (callees[0], n), t["line"], guarded, "runs only under (x.index() < self.len()).then(..)",
+                            "unchecked parent-array access in a closure of %s that is not run under `x.index() < self.len()`" % last_seg(sfx))
             o.check(b, "sites", b.line, True, "%d unchecked call(s), each with its obligation" % n, "")
     for b in o.need_fn(facts, "unionfind::UnionFind::into_labeling"):
         known_fns.add(b.npath)
